@@ -109,6 +109,20 @@ fn run_all(c: &AllCase) -> Verdict {
         ensure!(m.vars.iter().all(|v| *v < n), "all:var-range", "Ecube::all({}) yields {}", n, m.show());
         ensure!(seen.insert(m.clone()), "all:duplicate", "Ecube::all({}) yields {} twice", n, m.show());
     }
+    // the same enumeration through other iterator methods
+    {
+        let want = all.len();
+        let cnt = lib!("Ecube::all().count()", Ecube::all(n).count());
+        ensure!(cnt == want, "all:consume", "Ecube::all({}).count() = {}, expected {}", n, cnt, want);
+        let last = lib!("Ecube::all().last()", Ecube::all(n).last());
+        ensure!(last == all.last().copied(), "all:consume", "Ecube::all({}).last() differs from the last item yielded by next()", n);
+        let folded = lib!("Ecube::all().fold", Ecube::all(n).fold(0usize, |c, _| c + 1));
+        ensure!(folded == want, "all:consume", "Ecube::all({}) folded yields {} items, expected {}", n, folded, want);
+        for k in [0usize, 1, want / 2, want - 1, want, want + 7] {
+            let got = lib!("Ecube::all().nth", Ecube::all(n).nth(k));
+            ensure!(got == all.get(k).copied(), "all:consume", "Ecube::all({}).nth({}) differs from item {} yielded by next()", n, k, k);
+        }
+    }
     pass(n >= 1, vec![format!("n:{}", n)])
 }
 
@@ -276,7 +290,7 @@ fn run_soes_wide(c: &SoesWideCase) -> Verdict {
 pub fn def() -> PropDef {
     PropDef {
         id: "C13",
-        rule: "ecube: cases = (nv, a, b, assignments): exclusive cubes are build descriptions over variables < nv (nv in 0..=32) — one, zero, nth_var(_inv), from_vars with repeated variables, chains of ^ (4 reference forms) and ! (2 forms) — with the parity model computed by the harness. Checked: vars()/value(0) read back the model; value(m) = parity ^ xnor on all assignments (nv<=5) and generated 32-bit ones; is_zero/is_one; == iff same function; ^ and ! pointwise and structurally. Exhaustive: all ordered pairs of the 2^(n+1) terms for n<=4 (quick) / n<=5 (thorough). all: Ecube::all(n) yields 2^(n+1) distinct terms over variables < n, n<=10 (14 thorough). soes: cases = (n<=8, Soes description: zero/one/nth_var(_inv)/from_cubes of up to 6 generated terms, | in 4 forms); value(m) = OR of the term values on every assignment, Lut::from(&s) and Lut::from(s) tabulate exactly that, is_zero => constant 0, is_one => constant 1, cubes() denote the same function; exhaustive over all lists of <= 2 terms for n<=3 (quick), <= 3 terms for n<=4 plus a 100 000-list stride sample of 4-term lists (thorough). Non-trivial = two multi-variable terms sharing a variable (ecube) / overlapping terms and a non-constant function (soes).",
+        rule: "ecube: cases = (nv, a, b, assignments): exclusive cubes are build descriptions over variables < nv (nv in 0..=32) — one, zero, nth_var(_inv), from_vars with repeated variables, chains of ^ (4 reference forms) and ! (2 forms) — with the parity model computed by the harness. Checked: vars()/value(0) read back the model; value(m) = parity ^ xnor on all assignments (nv<=5) and generated 32-bit ones; is_zero/is_one; == iff same function; ^ and ! pointwise and structurally. Exhaustive: all ordered pairs of the 2^(n+1) terms for n<=4 (quick) / n<=5 (thorough). all: Ecube::all(n) yields 2^(n+1) distinct terms over variables < n, n<=10 (14 thorough), the same items through count/last/fold/nth. soes: cases = (n<=8, Soes description: zero/one/nth_var(_inv)/from_cubes of up to 6 generated terms, | in 4 forms); value(m) = OR of the term values on every assignment, Lut::from(&s) and Lut::from(s) tabulate exactly that, is_zero => constant 0, is_one => constant 1, cubes() denote the same function; exhaustive over all lists of <= 2 terms for n<=3 (quick), <= 3 terms for n<=4 plus a 100 000-list stride sample of 4-term lists (thorough). Non-trivial = two multi-variable terms sharing a variable (ecube) / overlapping terms and a non-constant function (soes).",
         assumptions: vec!["variables < 32 (u32 masks); Soes::from_cubes is given variables < n as it requires"],
         subs: vec![
             Box::new(Sub { name: "ecube", rule: "see property rule", strategy, cases: (300_000, 4_000_000), exhaustive: Some(enumerate), exhaustive_note: "all ordered pairs of exclusive cubes, all assignments, n<=4 (quick) / n<=5 (thorough)", run }),
